@@ -340,8 +340,46 @@ def check_export_summary(chk, name, fname, content, fmt, opt, model):
                       {"case": name, "list_of_species": got_n, "list_of_species_alias": got_a, "slot_order_names": names, "slot_order_aliases": aliases})
 
 
+def check_late_required(chk, name, fname, content, fmt, opt, model):
+    """history: the species list is looked at, then the required species are assigned through the property, then
+    the code is generated: every artefact has the slots of a network constructed with those species"""
+    tgt = proj.TARGETS["dense"]
+    tdir = tgt["dir"]
+    net = {"filelist": fname, "fileformats": fmt, "grain_model": model}
+    req = [x for x in opt["extra"].split(",") if x]
+    base = {"files": [{"name": fname, "content": content}], "targets": [dict(tgt)]}
+    p0 = proj.render(f"c09-late-{name}-ctor", dict(base, network=dict(net, required_species=req)))
+    code = f"n0 = len(net.species); e0 = len(net.elements); net.required_species = {req!r}"
+    p1 = proj.render(f"c09-late-{name}-setter", dict(base, network=dict(net), ops=[{"op": "exec", "code": code}]))
+    # and back: required species taken off the list again lose their slots
+    code2 = f"net.required_species = {req!r}; n0 = len(net.species); net.required_species = []"
+    p2 = proj.render(f"c09-late-{name}-cleared", dict(base, network=dict(net), ops=[{"op": "exec", "code": code2}]))
+    p3 = proj.render(f"c09-late-{name}-plain", dict(base, network=dict(net)))
+    tag = f"{name}/late-required"
+    for a_, b_, what in ((p0, p1, "assigned after the species list had been read"), (p3, p2, "assigned and cleared again")):
+        if not (a_.ok and b_.ok and a_.target_ok(tdir) and b_.target_ok(tdir)):
+            chk.unknown(f"{tag}:{what}", f"API rendering refused: {str((a_.meta.get('error'), b_.meta.get('error')))[-200:]}")
+            continue
+        chk.programs += 2
+        ma = {k: v for k, v in a_.macros(tdir).items() if k.startswith(("IDX_", "NSPECIES", "NELEMENTS", "NEQUATIONS"))}
+        mb = {k: v for k, v in b_.macros(tdir).items() if k.startswith(("IDX_", "NSPECIES", "NELEMENTS", "NEQUATIONS"))}
+        if ma == mb:
+            chk.ok(f"{tag}:{what}")
+            chk.nontrivial.add(f"{tag}:{what}")
+        else:
+            diff = sorted(set(ma.items()) ^ set(mb.items()))[:8]
+            chk.violation(f"{tag}:{what}", f"required species {what}: the index macros differ from those of a network constructed with the same required species ({diff})",
+                          {"case": name, "required": req, "history": code if b_ is p1 else code2, "macros_constructed": ma, "macros_history": mb})
+
+
 def run(pid, tier):
     chk = chx_props.main("C09", tier)
+    for name, fname, content, fmt, opt, model in projects():
+        if opt.get("extra"):
+            try:
+                check_late_required(chk, name, fname, content, fmt, opt, model)
+            except Exception as e:
+                chk.harness_error(f"{name}/late-required: {type(e).__name__}: {e}")
     for name, fname, content, fmt, opt, model in projects():
         if name in ("naming", "required-overlap") or tier == "thorough":
             try:
